@@ -2,7 +2,37 @@
 from contracts import sort_c
 
 SORT = "gaftools/cli/sort.py"
+CONV = "gaftools/conversion.py"
+UTILS = "gaftools/utils.py"
+INDEX = "gaftools/cli/index.py"
+VIEW = "gaftools/cli/view.py"
+GFA = "gaftools/gfa.py"
 PLAN = {}
+
+PLAN["C01"] = dict(
+    level="proof",
+    functions=[(CONV, "merge_nodes"), (CONV, "to_stable"), (UTILS, "search_intervals"), (CONV, "to_unstable#filter"), (INDEX, "convert_coord#filter")],
+    explanation="Base-identity formulation (DESIGN 3.2): a record designates the map path-offset -> (contig, position, orientation). "
+                "merge_nodes and the whole of to_stable (token loop, merge loop with ghost prefix arrays S/U/run_of, collapse branch, "
+                "field-list output, tag loop) are verified for every path length; the postcondition states, over the OUTPUT LINE's own "
+                "fields, that every input node's bases sit at the same path offset in the output segments (split form) or at "
+                "start'+offset / end'-1-offset on the reference contig (bare form), that the total is the sum of the output segments / "
+                "the contig length, and that the CIGAR is reversed iff the strand flips. search_intervals (window, safety, termination) "
+                "and the 3-case overlap filter are verified; the rest of to_unstable is covered by the bounded stand-in only.",
+    trusted_base=["meta-argument (not mechanised): equal identity maps => equal spellings (DESIGN 3.2)",
+                  "ghost prefix arrays built by X[k+1] = X[k] + d are the prefix sums",
+                  "to_unstable outside the overlap filter and search_intervals: BOUNDED stand-in only (not proved)"],
+    not_applicable_clauses=[],
+    mutations=[
+        dict(name="merge across orientations", file=CONV, old="if (node1.contig_id != node2.contig_id) or (orient1 != orient2):", new="if (node1.contig_id != node2.contig_id):", expect="merge_nodes", functions=[(CONV, "merge_nodes")]),
+        dict(name="touching test swapped", file=CONV, old='    if (orient1 == ">") and (node1.end != node2.start):', new='    if (orient1 == ">") and (node1.start != node2.end):', expect="merge_nodes", functions=[(CONV, "merge_nodes")]),
+        dict(name="bisection mid+1 -> mid", file=UTILS, old="mid + 1, end)", new="mid, end)", expect="search_intervals::decreases", functions=[(UTILS, "search_intervals")]),
+        dict(name="equivalent mutant mid-1 -> mid stays green", file=UTILS, old="start, mid - 1)", new="start, mid)", expect="green", functions=[(UTILS, "search_intervals")]),
+        dict(name="filter case 2 <= -> <", file=CONV, old="elif s < int(query_end) <= e:", new="elif s < int(query_end) < e:", expect="filter-iff-overlap", functions=[(CONV, "to_unstable#filter")]),
+        dict(name="collapse offset off by one", file=CONV, old="gaf_line.path_length - gaf_line.path_end\n", new="gaf_line.path_length - gaf_line.path_end - 1\n", expect="to_stable", functions=[(CONV, "to_stable")], quick=False),
+        dict(name="harmless: rename-free reorder of independent inits", file=CONV, old="    reverse_flag = False\n    new_total = None\n", new="    new_total = None\n    reverse_flag = False\n", expect="green", functions=[(CONV, "to_stable")], quick=False),
+    ],
+)
 
 PLAN["C08"] = dict(
     level="proof",
